@@ -160,7 +160,7 @@ Proof.
   - destruct (cfg_delete st _ cas); injection H as <- <- <-; li_triv.
   - cbn [n_reg set_reg sn_reg] in H. destruct (n_op nd).
     1,2,4: destruct (remove_prev (sn_reg (read_reg st)) _ prevv); injection H as <- <- <-; li_triv.
-    destruct (aget (sn_reg (read_reg st)) _); injection H as <- <- <-; li_triv.
+    destruct (aget (sn_reg (read_reg st)) _) as [e0|]; [destruct (negb (is_deleted (rv_ver (e_cur e0))))|]; injection H as <- <- <-; li_triv.
   - destruct (write_reg st (n_reg nd)) as [[st1 sn1]|]; [injection H as <- <- <-; li_triv|].
     destruct (5 <=? fa)%nat; injection H as <- <- <-; li_triv.
   - injection H as <- <- <-. li_triv.
